@@ -533,6 +533,73 @@ pub fn gen_c20(args: &Args) {
                 "date": date_json(date), "p": p.json(), "a": res_json(&a), "b": res_json(&b), "scan": true}));
         }
     }
+    // aimed scans: zone offsets chosen so that local midnight falls on the instant the Sun's longitude crosses a
+    // quadrant boundary (0, 90, 180, 270 degrees - equinoxes and solstices), +-30 min in 1-second steps. The instant
+    // is only AIMED with a low-precision formula of the harness' own (good to a few minutes); TLC judges the pairs.
+    for i in 0..args.num("aimed", 8) {
+        let y = r.range(1600, 2399) as i32;
+        let target = [0.0f64, 180.0, 90.0, 270.0][(i % 4) as usize];
+        let approx = [ymd(y, 3, 20), ymd(y, 9, 22), ymd(y, 6, 21), ymd(y, 12, 21)][(i % 4) as usize];
+        // bisection for the crossing within +-3 days of the approximate date (days since J2000.0)
+        let sun_lon = |d: f64| -> f64 {
+            let t = d / 36525.0;
+            let l0 = 280.46646 + 0.98564736 * d + 0.0003032 * t * t;
+            let m = (357.52911 + 0.98560028 * d - 0.0001537 * t * t).to_radians();
+            let c = (1.914602 - 0.004817 * t) * m.sin() + (0.019993 - 0.000101 * t) * (2.0 * m).sin() + 0.000289 * (3.0 * m).sin();
+            let om = (125.04 - 0.05295376 * d).to_radians();
+            (l0 + c - 0.00569 - 0.00478 * om.sin()).rem_euclid(360.0)
+        };
+        let d0 = dn_of(approx) as f64 - 0.5;
+        let diff = |d: f64| ((sun_lon(d) - target + 540.0).rem_euclid(360.0)) - 180.0;
+        let (mut lo, mut hi) = (d0 - 3.0, d0 + 3.0);
+        for _ in 0..50 {
+            let mid = (lo + hi) / 2.0;
+            if diff(mid) < 0.0 { lo = mid } else { hi = mid }
+        }
+        let cross = (lo + hi) / 2.0 + 0.5;            // days since 2000-01-01 0 h UT
+        let day = cross.floor() as i64;
+        let ut_s = ((cross - cross.floor()) * 86400.0) as i64;   // UT seconds of the crossing
+        // local midnight of civil date D at zone g is UT = D 0h - g: choose g = -ut_s (folded into [-12 h, 12 h])
+        let (date, g) = if ut_s <= 43200 { (date_of_dn(day), -ut_s) } else { (date_of_dn(day + 1), 86400 - ut_s) };
+        let lon = (g as f64 / 240.0 * 1e4) as i64;   // the meridian of that zone
+        let base = Site { dlat: 0, lat: r.range(-450_000, 450_000), lon: lon.clamp(-1_790_000, 1_790_000), el: 0, gmt: g };
+        let p = plain(r.range(1, 6) as usize);
+        for dd in [-1i64, 0, 1] {
+            let date = date + chrono::Duration::days(dd);
+            let mut prev: Option<(i64, Out)> = None;
+            let mut worst: Vec<(i64, i64, Out, Out)> = Vec::new();
+            let mut gg = (g - 1800).max(-43200);
+            while gg <= (g + 1800).min(43200) {
+                let s = Site { gmt: gg, ..base };
+                let o = raw_call(&s, date, &p);
+                if let Some((pg, po)) = &prev {
+                    if po.ok() && o.ok() {
+                        let mut dev = 0i64;
+                        for k in 0..7 {
+                            if (po.t[k] >= 0) != (o.t[k] >= 0) {
+                                dev = dev.max(100_000);
+                            } else if po.t[k] >= 600 && po.t[k] <= 85_000 && o.t[k] >= 600 && o.t[k] <= 85_000 {
+                                dev = dev.max((o.t[k] - (po.t[k] + (gg - pg))).abs());
+                            }
+                        }
+                        if worst.len() < 2 || dev > worst.last().unwrap().0 {
+                            worst.push((dev, *pg, po.clone(), o.clone()));
+                            worst.sort_by(|a, b| b.0.cmp(&a.0));
+                            worst.truncate(2);
+                        }
+                    }
+                }
+                prev = Some((gg, o));
+                gg += 1;
+            }
+            for (_, pg, a, b) in worst {
+                let sa = Site { gmt: pg, ..base };
+                let sb = Site { gmt: pg + 1, ..base };
+                w.emit(json!({"ev": "c20", "kind": "gmt", "d": 1, "site": site_json(&sa), "siteb": site_json(&sb),
+                    "date": date_json(date), "p": p.json(), "a": res_json(&a), "b": res_json(&b), "scan": "aimed"}));
+            }
+        }
+    }
     // zone offsets on either side of 0 (sites near Greenwich) on the dates where the calendar formula has structure
     let mut c = 1600;
     while c <= 2300 {
